@@ -88,7 +88,11 @@ func (w *Writer) build(data any) (n *node) {
 		if g, _ := data.(alt.Genericer); g != nil {
 			return w.build(g.Generic().Simplify())
 		}
-		n = w.build(alt.Decompose(data, &w.Options))
+		if w.NoReflect && len(w.CreateKey) == 0 {
+			n = w.buildStringNode(fmt.Sprintf("%v", data))
+		} else {
+			n = w.build(alt.Decompose(data, &w.Options))
+		}
 	}
 	return
 }
